@@ -14,6 +14,7 @@ pub mod c10;
 pub mod c11;
 pub mod c14;
 pub mod c15;
+pub mod c16;
 pub mod c17;
 pub mod c18;
 pub mod c19;
@@ -35,6 +36,7 @@ pub const ALL: &[Property] = &[
     Property { id: "C11", run: c11::run, replay: c11::replay },
     Property { id: "C14", run: c14::run, replay: c14::replay },
     Property { id: "C15", run: c15::run, replay: c15::replay },
+    Property { id: "C16", run: c16::run, replay: c16::replay },
     Property { id: "C17", run: c17::run, replay: c17::replay },
     Property { id: "C18", run: c18::run, replay: c18::replay },
     Property { id: "C19", run: c19::run, replay: c19::replay },
